@@ -9,7 +9,9 @@ RULE = ("programs of 1-14 statements drawn model-guided over the public API (ops
         "configuration = field (bn128, bls12-381, curve25519, small primes) x bitlength x resolution. "
         "Oracle: A*B-C == 0 mod p for every constraint, re-evaluated after every statement that returned. "
         "Non-trivial = at least one statement completed and at least one emitted constraint is truly quadratic "
-        "(non-constant variables on both sides of the product); distinct by program digest.")
+        "(non-constant variables on both sides of the product); distinct by program digest. Plus a deterministic cell "
+        "sweep: every (operation x operand-type combination) x a fixed pool of in/out-of-domain operands x guard modes "
+        "(none, 0, 1, 1/0, 0/1, 0/0, 1/1).")
 
 
 def quadratic(cons):
@@ -67,6 +69,48 @@ def shard(seed, n_examples, shrink=True):
     return core.finish_shard(stats, v, replay)
 
 
+MODES = ["normal", "guard0", "guard1", "guard10", "guard01", "guard00", "guard11"]
+
+
+def sweep_shard(cells, b, p):
+    """cell sweep: every (operation x operand-type combination) x operand pool x guard mode, error checking on"""
+    import itertools
+    from harness import opgrid
+    stats = core.Stats()
+    found = {}
+    lim = 1 << b
+    ipool = [-lim - 1, -1, 0, 1, 2, 3, lim - 1, lim]
+    for name, ts in cells:
+        op = ir.OPS[name]
+        pools = []
+        for pos, t in enumerate(ts):
+            if pos in op.params:
+                pools.append([0, 1, b, b + 1])
+            elif t in "Bb":
+                pools.append([0, 1])
+            elif t == "f":
+                pools.append([["f", 3, 2], ["f", -1, 1]])
+            else:
+                pools.append(ipool)
+        for vals in itertools.product(*pools):
+            for mode in MODES:
+                args = [(t, "priv" if i % 2 == 0 else "pub", v) for i, (t, v) in enumerate(zip(ts, vals))]
+                prog = opgrid.single({"p": p, "b": b, "r": 2, "ignore": False}, name, args, mode)
+                chk = Checker()
+                try:
+                    m = ir.run_program(prog, after=chk)
+                    ok = m.raised is None
+                    nt = ok and quadratic(m.ns.rec.cons)
+                except core.Violation as v:
+                    key = "%s.%s.%s" % (name, ts, mode)
+                    found.setdefault(key, {"case": prog, "msg": v.msg, "key": key})
+                    ok, nt = True, True
+                stats.case([name, ts, [str(v) for v in vals], mode], nt,
+                           ("mode:" + mode, "op:" + name, "run:completed" if ok else "run:raised"), sample_cap=1)
+    stats.violations = list(found.values())
+    return stats
+
+
 def replay(case):
     chk = Checker()
     try:
@@ -86,8 +130,22 @@ def run(ctx):
     ctx.assumptions = ["recorder backend and R1CS evaluator are correct", "Hypothesis generator (seeded)",
                        "hash gadgets run with the toy 'nobackend' Poseidon parameter set here (real sets in C20)"]
     if ctx.tier == "quick":
-        shards = [dict(seed=ctx.seed * 1000 + i, n_examples=60) for i in range(16)]
+        shards = [dict(seed=ctx.seed * 1000 + i, n_examples=250) for i in range(16)]
     else:
         shards = [dict(seed=ctx.seed * 1000 + 100 + i, n_examples=4000, shrink=True) for i in range(16)]
-    ctx.stats = core.run_shards("harness.checks.c01", "shard", shards)
-    ctx.stats.extra["shard_seeds"] = [s["seed"] for s in shards]
+    from harness import opgrid
+    cells = []
+    for name in ir.OPS:
+        for ts in opgrid.type_combos(name):
+            if any(t in "LA" for t in ts) or len(ts) > 3:
+                continue
+            cells.append((name, "".join(ts)))
+    grids = [(3, "bn128")] if ctx.tier == "quick" else [(2, 67), (3, "bn128"), (4, "bls12-381"), (8, "curve25519")]
+    total = core.Stats()
+    for b, p in grids:
+        total.merge_json(core.run_shards("harness.checks.c01", "sweep_shard",
+                                         [dict(cells=cells[i::16], b=b, p=p) for i in range(16)]).to_json())
+    total.merge_json(core.run_shards("harness.checks.c01", "shard", shards).to_json())
+    total.extra["shard_seeds"] = [s["seed"] for s in shards]
+    total.extra["cell_sweep"] = {"cells": len(cells), "modes": MODES, "grids": [list(g) for g in grids]}
+    ctx.stats = total
